@@ -163,6 +163,23 @@ class KernelOnIndex(Contract):
         yield "entry_is_initial_plus_sum_over_gaussians_of_closed_form_on_both_branches", L.and_(*cells)
 
 
+def _kernel_sweep(self, tier, seed):
+    from contracts.common import native_sweep
+
+    cases = [{"gaussians": g, "rates": r, "times": t, "backsweep": bs} for g, r, t in ((4, 3, 5), (6, 2, 3)) for bs in (False, True)]
+
+    def env(case, rng):
+        e = {f"sg_{i}": round(rng.uniform(0.05, 1.5), 3) for i in range(case["gaussians"])}
+        e.update({f"k_{i}": round(rng.uniform(0.05, 3.0), 3) for i in range(case["rates"])})
+        e["T"] = round(rng.uniform(5.0, 15.0), 3)
+        return e
+
+    return native_sweep(self, cases, envs=env, seed=seed)
+
+
+KernelOnIndex.bounded_checks = _kernel_sweep
+
+
 def _decide(cond, S):
     from pyvc import sym
 
